@@ -169,3 +169,19 @@ def run(cx):
         ret = cx.calls(rr_, r'Vec<T, A>::retain$|Vec::retain$')
         cx.guard('C12.G1', ret, {'not-SOA': r'^in\(Record::record_type\(arg2\),(?!.*\bSOA\b).*\)$|^is\(Record::record_type\(arg2\),NS\)$',
                                  'not-last-NS': r'^lt\(1,Vec::len\(arg1\.records\)\)$|^in\(Record::record_type\(arg2\),(?!.*\bNS\b).*\)$'}, expect=1, fn=rr_)
+
+    # ---------------------------------------------------------------- T1 (helper): what "the RRset / the name is empty" means
+    # verify_prerequisites decides NXDOMAIN / NXRRSET / YXDOMAIN / YXRRSET from AuthLookup::was_empty(); RFC 2136 3.2 speaks of RRs
+    # that exist, so emptiness has to be judged on the records the lookup yields (its iterator), not on the containers it holds
+    # (an RRset emptied by a class-NONE delete stays in the zone map, and a CNAME chain can consist of such empty RRsets)
+    A = 'hickory_server::zone_handler::auth_lookup::'
+    for path, it in ((A + 'AuthLookup::was_empty', 'AuthLookup::iter'), (A + 'LookupRecords::was_empty', 'LookupRecords::iter')):
+        w_ = cx.fn('C12.T1', path)
+        if w_:
+            r_ = cx.returns(w_, r'.')
+            ok = len(r_) == 1 and bool(re.fullmatch(rf'eq\(0,Iterator::count\({it}\(arg1\)\)\)|!ok\((<.*> as )?Iterator>?::next\({it}\(arg1\)\)\)', r_[0].term))
+            cx.check('C12.T1', ok, w_.path, 'ret', 'emptiness-judged-on-the-records-the-iterator-yields', '; '.join(x.term[:100] for x in r_))
+    ie = cx.fn('C12.T1', A + 'AuthLookup::is_empty')
+    if ie:
+        r_ = cx.returns(ie, r'.')
+        cx.check('C12.T1', len(r_) == 1 and r_[0].term in ('AuthLookup::was_empty(arg1)', 'eq(0,Iterator::count(AuthLookup::iter(arg1)))'), ie.path, 'ret', 'is_empty=was_empty', '; '.join(x.term[:100] for x in r_))
